@@ -2,47 +2,63 @@
    cannot be written closes the connection (once) and ends the loop; once the
    session has ended no further keep-alive is sent.
 
-   Quantification: every schedule (list of what the successive selects observed),
-   every fault oracle [fail] (so a write failure at the k-th keep-alive for every
-   k), every continuation of the schedule after the loop ended, every positive
-   interval.  [time.NewTicker] panics for an interval <= 0: [Client] replaces 0 by
-   30 s, a negative [Config.KeepaliveInterval] is a configuration error and is
-   outside "all intervals" here (C18_nonpositive_interval shows what the code does).
+   Quantification: every schedule (list of what the successive iterations of the loop
+   observed), every fault oracle [fail] (so a write failure at the k-th keep-alive for
+   every k), every continuation of the schedule after the loop ended, every list of
+   environment events (ticker fires, quit closed at ANY point between two steps of the
+   loop, the loop's own steps), every interleaving with re-dials of the transport, every
+   history of Connect/Resume attempts, every interval (NewClient replaces a non-positive
+   one by the default; [keepalive] called directly with one panics in time.NewTicker).
+
+   WHAT THE ATOMICITY OF THE CODE ALLOWS, AND IS STATED AS SUCH: the tick branch polls
+   quit, then pings, then (after a failed ping) looks at quit again; the receiver may
+   close quit between any two of these.  So ONE ping can follow the end of the session
+   per loop - the one already past the poll (C18_at_most_one_ping_after_quit: none when
+   the loop had not passed the poll) - and it may be written on the connection a
+   reconnection has installed meanwhile, or fail without a write when the re-dial failed.
+   It is never answered by Close (C18_no_close_after_quit, C18_no_close_on_later_connection).
+   ONE STEP REMAINS ATOMIC IN THE MODEL AND IS NOT IN THE CODE: between the second look at
+   quit (open) and the first statement of transport.Close() the receiver could close quit
+   and a whole reconnection complete; the Close would then act on the new connection.
+   The harness cannot stop the loop there (no call boundary); closing that window needs a
+   keep-alive bound to a connection handle instead of the shared Transport.
 
    RUNTIME, OBSERVED BY THE HARNESS WITH TOLERANCE, NOT PROVED:
-   * real-time spacing: that [time.Ticker] fires every [interval] (the model takes
-     the fires as given events);
-   * Go's select fairness: with quit closed AND a tick pending the runtime may
-     choose the tick.  What is proved instead: such late pings are bounded by the
-     tick pending when quit closed plus one per later fire (C18_late_pings_bounded),
-     a select with quit closed and no tick pending ends the loop at once
-     (C18_quit_seen_at_once), and after the loop has taken the quit branch nothing
-     follows (C18_after_quit_silent).  That the runtime eventually picks the quit
-     case is not proved.
-   * the WebSocket transport's Ping (a ping control frame, not whitespace) is not
-     modelled; the loop itself is transport-independent. *)
+   * real-time spacing: that [time.Ticker] fires every [interval]; the model takes the
+     fires as events and relates pings to fires (C18_pings_vs_fires);
+   * that Go's select eventually picks the closed quit; that a blocked read returns once
+     the connection is closed, i.e. the second half of "closed SO THAT the loss is detected
+     and reported": the receive loop's reaction to a failing read is property C12's, the
+     link from conn.Close() to that failing read is exercised by the harness only (real
+     receive loop blocked on the scripted connection / the real socket);
+   * the WebSocket transport (Ping is a control frame awaiting a pong, not whitespace; the
+     library underneath closes the connection itself when a ping or write fails) is not
+     modelled: the loop is transport-independent, the harness checks the
+     closed-and-reported clause there end to end. *)
 From Coq Require Import List ZArith NArith Bool Lia.
 From XV Require Import Lib.Sx Model.Keepalive Proofs.KeepaliveP.
 From XV Require Model.Recv Proofs.RecvP.
 Import ListNotations.
 
-(* Exactly one Ping per tick the loop takes: every step makes one Ping iff the loop
-   is still running and the select chose the ticker; and over a whole schedule the
-   number of Pings is the number of ticks chosen up to the step that ended the loop. *)
+(* ---------- the loop over its own observations ---------- *)
+
+(* Exactly one Ping per tick the loop takes: every step makes one Ping iff the loop is still
+   running and the iteration was a tick; over a whole schedule the number of Pings is the
+   number of ticks up to the step that ended the loop. *)
 Theorem C18_one_ping_per_tick : forall fail sched,
   (forall st s, count is_ping (snd (ka_step fail st s))
-                = match st, s with Running _, STick => 1 | _, _ => 0 end) /\
+                = match st with Running _ => if is_tick s then 1 else 0 | Stopped => 0 end) /\
   count is_ping (ka_trace fail sched) = count is_tick (taken fail 0 sched).
 Proof.
   intros fail sched. split; [intros st s; apply step_pings|].
   exact (pings_eq_ticks fail sched 0).
 Qed.
 
-(* While the session is up (quit open) and writes succeed: n fires, each followed by
-   a select, give exactly n successful pings and the loop keeps running. *)
+(* While the session is up (quit open) and writes succeed: n fires, each followed by a whole
+   iteration, give exactly n successful pings and the loop keeps running. *)
 Theorem C18_sent_at_every_tick : forall fail bs,
   (forall k, fail k = false) ->
-  let sched := resolve false false (flat_map (fun b => [EFire; ESelect b]) bs) in
+  let sched := resolve PIdle false false (flat_map round bs) in
   ka_trace fail sched = repeat APingOk (length bs) /\
   ka_state fail sched = Running (length bs).
 Proof.
@@ -51,9 +67,17 @@ Proof.
   intros k _. apply Hok.
 Qed.
 
-(* Write failure at the k-th keep-alive (k = n+1), for every k and every continuation
-   [suf] of the schedule: n good pings, the failing one, the ticker is stopped, the
-   transport is closed exactly once, the loop returns, and nothing follows. *)
+(* "at the configured interval", as far as events go: whatever the order of fires, of the
+   loop's steps (a slow Ping lets fires coalesce in the one-slot channel) and of the end of
+   the session, every ping has its own ticker fire (plus the tick already pending or taken). *)
+Theorem C18_pings_vs_fires : forall fail np ph pending closed evs,
+  count is_ping (snd (ka_run fail (Running np) (resolve ph pending closed evs)))
+  <= b2n (in_tick ph) + b2n pending + count_fire evs.
+Proof. exact pings_vs_fires. Qed.
+
+(* Write failure at the k-th keep-alive (k = n+1) with the session still up, for every k and
+   every continuation [suf]: n good pings, the failing one, the ticker is stopped, the transport
+   is closed exactly once, the loop returns, and nothing follows. *)
 Theorem C18_failure_closes_once_and_stops : forall fail n suf,
   (forall k, k <= n -> fail k = false) -> fail (S n) = true ->
   let tr := ka_trace fail (repeat STick n ++ STick :: suf) in
@@ -68,84 +92,60 @@ Proof.
   cbn. split; lia.
 Qed.
 
-(* The same for an arbitrary schedule: whenever a ping fails, the trace is exactly
-   "good pings, failed ping, stop, close, return"; and in every run there is at most
-   one failed ping, exactly as many Close calls, at most one return, nothing after it. *)
+(* The same failure when quit was closed while that ping was under way: the loop returns
+   WITHOUT Close - the session is over, its loss is being reported by the receiver, and the
+   transport may already belong to the next connection. *)
+Theorem C18_late_failure_does_not_close : forall fail n suf,
+  (forall k, k <= n -> fail k = false) -> fail (S n) = true ->
+  let tr := ka_trace fail (repeat STick n ++ STickLate :: suf) in
+  tr = repeat APingOk n ++ [APingFail; ATickerStop; AReturn] /\
+  ka_state fail (repeat STick n ++ STickLate :: suf) = Stopped /\ count is_close tr = 0.
+Proof.
+  intros fail n suf Hok Hf. cbn zeta. unfold ka_trace, ka_state.
+  rewrite (run_fail_late fail suf n 0); [|intros k Hk; apply Hok; lia|exact Hf].
+  cbn [fst snd]. split; [reflexivity|]. split; [reflexivity|].
+  rewrite count_app, count_repeat_false by reflexivity. reflexivity.
+Qed.
+
+(* For an arbitrary schedule: whenever a ping fails the trace is "good pings, failed ping, stop,
+   [Close,] return"; in every run at most one failed ping, at most one Close and only after it,
+   at most one return, nothing after it; with quit never closed under a ping, Close exactly when
+   a ping failed. *)
 Theorem C18_failure_any_schedule : forall fail sched,
   let tr := ka_trace fail sched in
   (In APingFail tr ->
-     exists n, tr = repeat APingOk n ++ [APingFail; ATickerStop; AClose; AReturn] /\
+     exists n, (tr = repeat APingOk n ++ [APingFail; ATickerStop; AClose; AReturn] \/
+                tr = repeat APingOk n ++ [APingFail; ATickerStop; AReturn]) /\
                ka_state fail sched = Stopped /\ fail (S n) = true) /\
-  count is_close tr = count is_pingfail tr /\ count is_pingfail tr <= 1 /\
-  count is_return tr <= 1 /\ after_return tr = [].
+  count is_close tr <= count is_pingfail tr /\ count is_pingfail tr <= 1 /\
+  count is_return tr <= 1 /\ after_return tr = [] /\
+  (existsb is_late sched = false -> count is_close tr = count is_pingfail tr).
 Proof.
   intros fail sched. cbn zeta. unfold ka_trace, ka_state. split.
   - intros Hin. destruct (failure_shape fail sched 0 Hin) as (n & Htr & Hst & Hf & _).
     exists n. split; [exact Htr|]. split; [exact Hst|exact Hf].
-  - pose proof (closes_eq_failures fail sched 0) as (Hc & Hf & Hr). cbn zeta in *.
+  - pose proof (closes_le_failures fail sched 0) as (Hc & Hf & Hr). cbn zeta in *.
     split; [exact Hc|]. split; [exact Hf|]. split; [exact Hr|].
-    apply nothing_after_return.
+    split; [apply nothing_after_return|]. apply closes_eq_failures.
 Qed.
 
-(* "...the connection is closed so that the loss is detected and reported": on the TCP
-   transport the Close that follows the failed ping writes the closing tag and then closes
-   the connection exactly once WHATEVER that write returns [cr] (on a connection that is
-   dead for writing it fails too) ... *)
-Theorem C18_failure_closes_connection : forall fail n suf cr,
+(* On the TCP transport the Close that follows the failed ping writes the closing tag (its
+   result is not looked at) and then closes the connection, exactly once. *)
+Theorem C18_failure_closes_connection : forall fail n suf,
   (forall k, k <= n -> fail k = false) -> fail (S n) = true ->
-  let ct := conn_trace cr (ka_trace fail (repeat STick n ++ STick :: suf)) in
+  let ct := conn_trace (ka_trace fail (repeat STick n ++ STick :: suf)) in
   ct = repeat (CWrite ping_data) (S n) ++ [CWrite stream_close_data; CConnClose] /\
   count is_connclose ct = 1.
 Proof.
-  intros fail n suf cr Hok Hf. cbn zeta.
+  intros fail n suf Hok Hf. cbn zeta.
   destruct (C18_failure_closes_once_and_stops fail n suf Hok Hf) as (Htr & _ & Hc & _).
   cbn zeta in Htr, Hc. rewrite conn_closes_eq_closes. split; [|exact Hc].
   rewrite Htr, conn_trace_app, conn_trace_oks. cbn [repeat].
   rewrite repeat_cons, <- app_assoc. reflexivity.
 Qed.
 
-(* ... in every run the connection is closed exactly as often as a ping failed (0 or 1) ... *)
-Theorem C18_connection_closed_iff_failed : forall fail sched cr,
-  count is_connclose (conn_trace cr (ka_trace fail sched)) = count is_pingfail (ka_trace fail sched).
-Proof.
-  intros fail sched cr. rewrite conn_closes_eq_closes.
-  exact (proj1 (closes_eq_failures fail sched 0)).
-Qed.
-
-(* ... and the receive loop (Model/Recv.v, property C12) whose blocked read then fails
-   closes quit and reports the loss: one error callback, one Disconnected event. *)
-Theorem C18_loss_reported : forall inb,
-  Recv.crecv inb 0 None [] = [Recv.AQuit; Recv.AErrCall; Recv.AEvDisconnected inb].
-Proof. reflexivity. Qed.
-
-(* "once the session has ended": however the receive loop ends (read error, element it
-   rejects, answer it cannot write, the server's closing tag) it closes quit, exactly once,
-   BEFORE it reports the loss (the Disconnected handler of a StreamManager returns only
-   when a new session is up: the keepalive of the lost connection must not tick during
-   the outage), and routes or writes nothing afterwards; the theorems below say what the
-   keep-alive loop does from there. *)
-Theorem C18_session_end_closes_quit : forall items inb nw wf,
-  let rt := Recv.crecv inb nw wf items in
-  Recv.count_act Recv.is_quit rt = 1 /\
-  Recv.quit_before_disc rt = true /\ Recv.quiet_after_quit rt = true.
-Proof.
-  intros items inb nw wf. pose proof (RecvP.crecv_loss items inb nw wf) as H.
-  cbn zeta in *. destruct H as (H1 & (H2 & H3) & _). repeat split; assumption.
-Qed.
-
-(* ... in this receive loop's own terms, for each of the four ways it ends a session - a stream error
-   from the server included: quit is closed before the first application callback (router, event
-   handler, error callback) is entered, and never again.  Together with C18_no_ping_once_quit_closed:
-   no keep-alive while those callbacks run, however long they take. *)
-Theorem C18_quit_before_callbacks : forall e,
-  exists rest, recv_ending e = RQuit :: rest /\ ~ In RQuit rest /\ existsb is_callback rest = true.
-Proof.
-  intros e. destruct e; cbn [recv_ending]; eexists; (split; [reflexivity|]); split;
-    try reflexivity; cbn [In]; intros H; repeat (destruct H as [H|H]; [discriminate|]); exact H.
-Qed.
-
-(* Once the loop has taken the quit branch no action follows, whatever the schedule
-   offers afterwards: n pings, stop the ticker, return; no Close, no later ping. *)
+(* Once the loop has taken the quit branch no action follows, whatever the schedule offers
+   afterwards: n pings, stop the ticker, return; no Close, no later ping. *)
 Theorem C18_after_quit_silent : forall fail n suf,
   (forall k, k <= n -> fail k = false) ->
   ka_trace fail (repeat STick n ++ SQuit :: suf) = repeat APingOk n ++ [ATickerStop; AReturn] /\
@@ -172,9 +172,9 @@ Theorem C18_stops_iff : forall fail sched,
   (In AReturn (ka_trace fail sched) <-> ka_state fail sched = Stopped).
 Proof. intros fail sched. split; [apply stopped_iff|apply returned_iff]. Qed.
 
-(* XMPPTransport.Ping hands exactly the one byte "\n" to the connection and succeeds
-   iff the write reports no error and one byte written; everything the loop puts on
-   the wire of the TCP transport is that byte, once per tick taken. *)
+(* XMPPTransport.Ping hands exactly the one byte "\n" to the connection and succeeds iff the
+   write reports no error and one byte written; everything the loop puts on the wire of the TCP
+   transport is that byte, once per tick taken. *)
 Theorem C18_ping_content : forall (wr : nat -> wres) sched r,
   fst (xmpp_ping r) = [10%N] /\
   (snd (xmpp_ping r) = true <-> r = WOk 1%Z) /\
@@ -185,56 +185,116 @@ Proof.
   rewrite wire_is_newlines. unfold ka_trace. rewrite pings_eq_ticks. reflexivity.
 Qed.
 
-(* ... and that byte is a whitespace keep-alive in the sense of the property (a non-empty run
-   of XML white space): the class the correspondence compares, whatever the byte. *)
+(* ... and that byte is a whitespace keep-alive in the sense of the property (a non-empty run of
+   XML white space): the class the correspondence compares, whatever the byte. *)
 Theorem C18_ping_is_whitespace : forall r,
   is_keepalive_payload (fst (xmpp_ping r)) = true /\ is_keepalive_payload stream_close_data = false.
 Proof. intros r. split; reflexivity. Qed.
 
-(* Environment level.  After quit has been closed the loop can still ping only for the
-   tick pending at that moment and for later fires... *)
-Theorem C18_late_pings_bounded : forall fail np pending evs,
-  count is_ping (snd (ka_run fail (Running np) (resolve pending true evs)))
-  <= (if pending then 1 else 0) + count_fire evs.
-Proof. exact late_pings_bounded. Qed.
+(* ---------- the end of the session, at any point between two steps of the loop ---------- *)
 
-(* Since the tick branch polls quit before pinging: once quit is closed NO ping follows,
-   pending tick or not, whatever the runtime picks. *)
-Theorem C18_no_ping_once_quit_closed : forall fail np pending evs,
-  count is_ping (snd (ka_run fail (Running np) (resolve pending true evs))) = 0.
-Proof. exact no_ping_once_closed. Qed.
+(* "once the session has ended": the owner of the quit channel is the receive loop (Model/Recv.v,
+   Client.recv).  However it ends - read error, rejected element, the server's closing tag, a stream
+   error (also one whose handler reconnects the client and takes the transport over) - it closes quit
+   exactly once ... *)
+Theorem C18_session_end_closes_quit : forall items inb nw wf t,
+  Recv.count_act Recv.is_quit (Recv.crecv inb nw wf items) = 1 /\
+  (Recv.reaches_end items = true ->
+   Recv.count_act Recv.is_quit (Recv.crecv_handover t inb nw wf items) = 1).
+Proof.
+  intros items inb nw wf t. split.
+  - exact (proj1 (RecvP.crecv_loss items inb nw wf)).
+  - intros Hre. exact (proj1 (RecvP.crecv_handed_over t items inb nw wf Hre)).
+Qed.
 
-(* ...and with no tick pending the very next select observes quit: no ping at all. *)
+(* ... and BEFORE the first application callback (router, event handler, error callback) is entered:
+   those run synchronously in the receive loop and may take arbitrarily long - a StreamManager's handler
+   only returns once a new session is up.  With the two theorems below: while they run at most the one
+   ping already past its poll goes out, and no Close. *)
+Theorem C18_quit_before_callbacks : forall items inb nw wf pre a post,
+  Recv.crecv inb nw wf items = pre ++ a :: post -> Recv.is_callback a = true -> In Recv.AQuit pre.
+Proof. exact RecvP.crecv_callbacks_after_quit. Qed.
+
+Theorem C18_quit_before_callbacks_handover : forall t items inb nw wf,
+  Recv.reaches_end items = true ->
+  Recv.quit_before_callbacks (Recv.crecv_handover t inb nw wf items) = true.
+Proof.
+  intros t items inb nw wf Hre.
+  exact (proj1 (proj2 (RecvP.crecv_handed_over t items inb nw wf Hre))).
+Qed.
+
+(* What the correspondence runs expect the receive loop to report (error callbacks, Disconnected events)
+   for each way the harness ends a session is what Model/Recv.v says, not a table of its own. *)
+Theorem C18_session_report_is_recv :
+  let rep tr := (Recv.count_act Recv.is_err tr, Recv.count_act Recv.is_disc tr) in
+  session_report SeReadFails = rep (Recv.crecv 0 0 Recv.no_fault []) /\
+  session_report SeStreamClose = rep (Recv.crecv 0 0 Recv.no_fault [Recv.IClose]) /\
+  session_report SeStreamError = rep (Recv.crecv 0 0 Recv.no_fault [Recv.IStreamError 0]) /\
+  session_report SeHandedOver = rep (Recv.crecv_handover 0 0 0 Recv.no_fault []) /\
+  session_report SeNone = (0, 0).
+Proof. cbn zeta. repeat split; reflexivity. Qed.
+
+(* Once quit is closed at most ONE ping follows, and none unless the loop was already past its
+   poll of quit at that moment (about to ping, or pinging). *)
+Theorem C18_at_most_one_ping_after_quit : forall fail np ph pending evs,
+  count is_ping (snd (ka_run fail (Running np) (resolve ph pending true evs))) <= b2n (past_poll ph).
+Proof. exact pings_once_closed. Qed.
+
+(* ... and whatever that ping does, the loop calls no Close once quit is closed. *)
+Theorem C18_no_close_after_quit : forall fail st ph pending evs,
+  count is_close (snd (ka_run fail st (resolve ph pending true evs))) = 0.
+Proof. exact no_close_once_closed. Qed.
+
+(* With quit closed, the loop at its select and no tick pending: the very next select ends it. *)
 Theorem C18_quit_seen_at_once : forall fail np b evs,
-  ka_run fail (Running np) (resolve false true (ESelect b :: evs))
+  ka_run fail (Running np) (resolve PIdle false true (ESelect b :: evs))
   = (Stopped, [ATickerStop; AReturn]).
 Proof. exact quit_seen_at_once. Qed.
 
-(* The quit branch is never taken while quit is open. *)
-Theorem C18_no_quit_before_close : forall evs pending,
+(* While quit is open the quit branch is never taken and no iteration is a late one. *)
+Theorem C18_no_quit_before_close : forall evs ph pending,
   existsb (fun e => match e with ECloseQuit => true | _ => false end) evs = false ->
-  count is_quit (resolve pending false evs) = 0.
-Proof. exact resolve_no_quit_before_close. Qed.
+  count is_quit (resolve ph pending false evs) = 0 /\
+  existsb is_late (resolve ph pending false evs) = false.
+Proof. exact resolve_open. Qed.
 
-(* The transport object is re-used across reconnections: the Close that follows a failed
-   keep-alive closes the connection it was entered with (the one the ping failed on), not the
-   one a reconnection has installed during its wait. *)
-Theorem C18_close_hits_own_connection : forall at_entry after_wait,
-  xmpp_close_target at_entry after_wait = at_entry.
-Proof. reflexivity. Qed.
+(* ---------- which connection: the Transport object outlives its connections ---------- *)
 
-(* One keep-alive loop per established session over any history of Resume attempts on one
-   client: an attempt that reports failure (connect error, or the PostResumeHook's error)
-   starts none and leaves no session behind. *)
-Theorem C18_one_loop_per_session : forall h : list attempt,
-  loops_of h = count is_att_ok h /\
-  (forall a, In a h -> loops_started a = (if attempt_leaves_session a then 1 else 0)).
+(* Without a re-dial in between, everything the loop does - pings and the Close that answers
+   a failed one - is done to the connection the loop was started on. *)
+Theorem C18_loop_touches_own_connection : forall c fail st sched,
+  forallb (touches c) (conn_run (Some c) (map TAct (snd (ka_run fail st sched)))) = true.
+Proof. intros c fail st sched. apply conn_run_own. Qed.
+
+(* Re-dials only start after quit is closed (the receiver closes quit before it runs the
+   callbacks that reconnect, C18_quit_before_callbacks).  From then on, however the rest of the
+   loop's run is interleaved with dials (failed ones included: the transport then holds no
+   connection and a ping fails without a write): no connection is closed by the loop. *)
+Theorem C18_no_close_on_later_connection : forall fail st ph pending evs l cur,
+  flat_map act_of l = snd (ka_run fail st (resolve ph pending true evs)) ->
+  count closes_conn (conn_run cur l) = 0.
 Proof.
-  intros h. split; [apply loops_of_count|]. intros a _. destruct a; reflexivity.
+  intros fail st ph pending evs l cur Hl. apply conn_run_no_close.
+  rewrite Hl. apply no_close_once_closed.
 Qed.
 
-(* Through NewClient every configured interval is usable: a non-positive one is replaced by
-   the default, so the loop started by Connect/Resume never hits the panic below. *)
+(* ---------- sessions: Connect / Resume attempts on one client ---------- *)
+
+(* One keep-alive loop per session left up, over any history of attempts: an attempt whose
+   connect() fails starts none and leaves nothing; an attempt whose post-connection hook fails
+   returns the error, starts none and CLOSES the session it had established (computed from the
+   steps of the attempt: session established / closed again / loops started). *)
+Theorem C18_one_loop_per_session : forall h : list attempt,
+  loops_of h = count is_att_ok h /\
+  (forall a, In a h -> loops_started a = (if attempt_leaves_session a then 1 else 0)) /\
+  (forall a, In a h -> o_loops (run_attempt a) = 0 -> o_session (run_attempt a) = true ->
+             o_closed (run_attempt a) = true).
+Proof.
+  intros h. split; [apply loops_of_count|]. split; intros a _; destruct a; cbn; congruence.
+Qed.
+
+(* Through NewClient every configured interval is usable: a non-positive one is replaced by the
+   default, so the loop started by Connect/Resume never hits the panic below. *)
 Theorem C18_client_interval : forall cfg fail sched,
   (0 < client_interval cfg)%Z /\
   ((0 < cfg)%Z -> client_interval cfg = cfg) /\
@@ -263,15 +323,22 @@ Proof.
   destruct (interval <=? 0)%Z eqn:He; [|reflexivity]. apply Z.leb_le in He. lia.
 Qed.
 
-(* non-vacuity: the third ping fails while the schedule goes on offering ticks and quit;
-   and a tick pending when quit is closed: the runtime picks the tick, the loop still stops
-   without pinging; three attempts on one client, one loop *)
+(* non-vacuity: the third ping fails while the schedule goes on offering ticks and quit; quit
+   closed between the poll and the ping: that ping still goes out (and is the only one), its
+   failure is not answered by Close even when the transport was re-dialled (first refused,
+   then connection 2) in between; quit closed before the poll: no ping; three attempts on one
+   client, one loop *)
 Example C18_example :
   keepalive 2000 (fun k => Nat.eqb k 3) [STick; STick; STick; STick; SQuit]
   = [APingOk; APingOk; APingFail; ATickerStop; AClose; AReturn] /\
   taken (fun k => Nat.eqb k 3) 0 [STick; STick; STick; STick; SQuit] = [STick; STick; STick] /\
+  ka_trace (fun k => Nat.eqb k 2)
+    (resolve PIdle false false (round true ++ [EFire; ESelect true; EPoll; ECloseQuit; EPing; ERecheck; EFire; ESelect true; EPoll]))
+  = [APingOk; APingFail; ATickerStop; AReturn] /\
+  conn_run (Some 1%N) [TAct APingOk; TDial None; TAct APingFail; TDial (Some 2%N); TAct ATickerStop; TAct AReturn]
+  = [CW 1%N ping_data; CNoConn] /\
   ka_trace (fun _ => false)
-    (resolve false false [EFire; ESelect false; EFire; ECloseQuit; ESelect true; ESelect true; EFire; ESelect true])
+    (resolve PIdle false false (round true ++ [EFire; ESelect true; ECloseQuit; EPoll; EPing; ERecheck]))
   = [APingOk; ATickerStop; AReturn] /\
   wire [APingOk; APingOk; ATickerStop; AReturn] = [10%N; 10%N] /\
   loops_of [AttHookFails; AttConnectFails; AttOk] = 1 /\ client_interval (-5) = 30000000%Z.
@@ -279,23 +346,26 @@ Proof. repeat split; reflexivity. Qed.
 
 Print Assumptions C18_one_ping_per_tick.
 Print Assumptions C18_sent_at_every_tick.
+Print Assumptions C18_pings_vs_fires.
 Print Assumptions C18_failure_closes_once_and_stops.
+Print Assumptions C18_late_failure_does_not_close.
 Print Assumptions C18_failure_any_schedule.
 Print Assumptions C18_failure_closes_connection.
-Print Assumptions C18_connection_closed_iff_failed.
-Print Assumptions C18_loss_reported.
-Print Assumptions C18_session_end_closes_quit.
-Print Assumptions C18_quit_before_callbacks.
 Print Assumptions C18_after_quit_silent.
 Print Assumptions C18_stopped_silent.
 Print Assumptions C18_stops_iff.
 Print Assumptions C18_ping_content.
 Print Assumptions C18_ping_is_whitespace.
-Print Assumptions C18_late_pings_bounded.
+Print Assumptions C18_session_end_closes_quit.
+Print Assumptions C18_quit_before_callbacks.
+Print Assumptions C18_quit_before_callbacks_handover.
+Print Assumptions C18_session_report_is_recv.
+Print Assumptions C18_at_most_one_ping_after_quit.
+Print Assumptions C18_no_close_after_quit.
 Print Assumptions C18_quit_seen_at_once.
 Print Assumptions C18_no_quit_before_close.
-Print Assumptions C18_no_ping_once_quit_closed.
-Print Assumptions C18_close_hits_own_connection.
+Print Assumptions C18_loop_touches_own_connection.
+Print Assumptions C18_no_close_on_later_connection.
 Print Assumptions C18_one_loop_per_session.
 Print Assumptions C18_client_interval.
 Print Assumptions C18_nonpositive_interval.
